@@ -317,6 +317,14 @@ def name_class_cases(sylt, fnd):
         events, outcome, it = runner.run_concrete(parse(lua)); outs.append(("prints", [e[1] for e in events if e[0] == "print"], text))
     if outs[0][:2] != outs[1][:2] or outs[0][0] != "prints" or outs[0][1][:1] != [("int", 7)]:
         fnd.report("self-scope:field-after-method", "`self` in a non-method field of a blob literal inside a method must be the enclosing method's instance whatever the order of the fields: method first gives %s, method last gives %s" % (outs[0][:2], outs[1][:2]), {"method_first.sy": outs[0][2], "method_last.sy": outs[1][2]})
+    # function literals inside a list / tuple stored in a field are not methods either: `self` there is the enclosing method's instance
+    sh2 = "Inner :: blob {\n    hs: [fn -> int],\n    pr2: (fn -> int, int),\n}\nOuter :: blob {\n    id: int,\n    make: fn -> Inner,\n}\n"
+    text = sh2 + "start :: fn do\n    o := Outer { id: 7, make: fn -> Inner do\n        ret Inner { hs: [fn -> int do ret self.id end], pr2: (fn -> int do ret self.id + 1 end, 0) }\n    end }\n    i := o.make()\n    i.hs -> for_each(fn f: fn -> int do print(f()) end)\n    q := i.pr2\n    print(q[0]())\nend\n"
+    rc, lua, out = common.compile_sy(sylt, {"main.sy": text}); n += 1
+    if rc != 0 or lua is None: fnd.report("self-scope:function-literals-inside-a-collection-field", "`self` inside a list / tuple of function literals in a field of a blob literal (written inside a method of an outer blob) is the outer instance; the program is rejected: %s" % out[-200:].replace("\n", " "), {"main.sy": text})
+    else:
+        events, outcome, it = runner.run_concrete(parse(lua)); got = [e[1] for e in events if e[0] == "print"]
+        if got != [("int", 7), ("int", 8)]: fnd.report("self-scope:function-literals-inside-a-collection-field", "`self` inside a list / tuple of function literals in a field must be the enclosing method's instance (prints 7, 8); got %s" % (got,), {"main.sy": text})
     for inner in (inner_a, inner_b):
         text = sh + "start :: fn do\n    i := %s\n    print(i.me)\nend\n" % inner.replace("self.id", "self.me")
         rc, lua, out = common.compile_sy(sylt, {"main.sy": text}); n += 1
